@@ -592,6 +592,8 @@ structure Mon where
   closed : List Nat := []
   /-- which kind of op made the *stored* status of a proposal Rejected (first time seen) -/
   rejBy : AMap Nat String := []
+  /-- the executor setting the multisig was instantiated with (`-` | `member` | `only:<addr>`); it can never change -/
+  exec0 : Option String := none
   /-- header `wide=1`: only the most recent proposals have a snapshot probe -/
   wide : Bool := false
 
@@ -647,7 +649,8 @@ def monitorOp (mu : Mon) (prev : Args) (toks : List String) (implOk : Bool) (out
     let P : Obs := if fresh then { props := [], votes := [], raw := [], snap := [], members := O.members, bank := O.bank, cw20 := O.cw20 }
                    else parseObs prev
     let mu := if fresh then { mu with inited := true, maxp := parseDur (a.str "period"), dirtyAt := some blk.height,
-                                      createdDirty := [], execOk := [], refunded := [], closed := [], rejBy := [] } else mu
+                                      createdDirty := [], execOk := [], refunded := [], closed := [], rejBy := [],
+                                      exec0 := if kind == "inst" then some (let e := a.str "executor"; if e == "" then "-" else e) else none } else mu
     let handlerOk := implOk || out.str "handler" == "ok"
     let outMsgs := out.str "msgs"
     -- ---------- bookkeeping: group writes in the current block, proposals created after one
@@ -780,7 +783,7 @@ def monitorOp (mu : Mon) (prev : Args) (toks : List String) (implOk : Bool) (out
       (if (cur.list "pprops").take (O.props.length) != cur.list "props" then [mk "C03" "C03/views-differ" "Proposal vs ListProposals"] else []))
     -- Execute / Close are admitted according to the same status (state before the op, at the op's block)
     let authorised : Bool :=
-      let ex := cfgExecutor prev
+      let ex := mu.exec0.getD (cfgExecutor prev)   -- as instantiated; the stored configuration only as a fallback
       if ex == "-" then true
       else if ex == "member" then (P.members.any fun m => m.1 == snd)
       else ex == s!"only:{snd}"
